@@ -93,6 +93,10 @@ func Generate(ctx context.Context, wd string, env []string, patterns []string, o
 		// The output belongs in the directory of its package.
 		return nil, []error{fmt.Errorf("output file prefix %q must not contain a path separator", opts.PrefixOutputFile)}
 	}
+	if strings.HasPrefix(opts.PrefixOutputFile, "_") || strings.HasPrefix(opts.PrefixOutputFile, ".") {
+		// The go tool ignores files whose names begin with "_" or ".".
+		return nil, []error{fmt.Errorf("output file prefix %q must not begin with %q: the go tool would ignore the generated file", opts.PrefixOutputFile, opts.PrefixOutputFile[:1])}
+	}
 	pkgs, errs := load(ctx, wd, env, opts.Tags, patterns)
 	if len(errs) > 0 {
 		return nil, errs
